@@ -32,9 +32,10 @@ class CaseResult:
                signature: a short stable string describing the failure pattern independent of sizes/names where
                possible (used to match known findings); defaults to the clause name.
     """
-    __slots__ = ("clauses", "nontrivial_key", "failures")
+    __slots__ = ("clauses", "nontrivial_key", "failures", "id_events")
 
     def __init__(self):
+        self.id_events = []
         self.clauses = {}
         self.nontrivial_key = None
         self.failures = []
